@@ -53,9 +53,11 @@ CLAIMED['C19'] = dict(
          'deep_distance clauses (range, 0 when equal, positive when the default diff is non-empty) are evaluated on the implementation over generated nested pairs inside '
          'the stated domain; their model (delta view + DeepHash counts) is part of the diff-model work and is not yet a theorem.',
     design='5/C19',
-    note='Trusted: Lean kernel + Mathlib order/field lemmas; IEEE rounding is outside the rational model (float findings F13c/F13d). deep_distance is partial: observed, not proved. '
-         'Known findings F13a, F13b, F17a, F17b, F25; F24 fixed in /repo.',
-    technique='Lean 4 proof (rational arithmetic) + differential correspondence; deep_distance by evaluation inside a stated domain')
+    note='Trusted: Lean kernel + Mathlib order/field lemmas; IEEE rounding is outside the rational model (float findings F13c/F13d). deep_distance: modelled (Model/Distance/Deep.lean, op DDIST: the reported number is the model numerator over the model denominator on the ordered universe); '
+         'its range is a theorem for nested dictionaries of any depth without a type change (C19_deep_distance_nested_dicts: numerator <= denominator + number of type changes), the property is refuted in the model '
+         'where the code refutes it (C19_N_deep_distance_exceeds_one = F13a); lists, ignore_order and the positivity clause are observed, not proved. '
+         'Known findings F13a, F13b, F17a, F17b, F17c, F25; F24, F49, F53, F54, F60 fixed in /repo.',
+    technique='Lean 4 proof (rational arithmetic; induction over nested dictionaries for deep_distance) + differential correspondence; deep_distance outside the proved domain by evaluation')
 CLAIMED['C20'] = dict(
     text='Lean 4 theorems over a file-system state machine of save_content_to_path/_save_content: for every file system, path, content and every fault point (open, '
          'serialise, write with any partial text, close) a failed save leaves the target with its original content, no stray .bak and no other path touched; a successful '
